@@ -44,7 +44,7 @@ PROPS = {
                        "differential runs against the real functions (hook)."),
         "level_note": ("Trusted: Lean kernel; hand-written lane semantics of the SSE2 intrinsics; the hook calling the two private "
                        "functions; index sizes above 49 bits are outside the theorem (address_bits = 64 overflows the u64 shift)."),
-        "lean": ["Pdb.Props.C19"],
+        "lean": ["Pdb.Props.C19", "Pdb.Proofs.GenBits"],
         "harness": [{"cmd": "c19", "quick": 20000, "thorough": 300000, "max_search": 600000}],
         "rule": ("synthetic 64-entry pages from one SplitMix64 state in six styles (empty, sparse exact matches, near misses in the "
                  "dropped / lowest partial-key bits, zero partial keys on non-empty entries, dense random, duplicates), index bits "
